@@ -26,6 +26,27 @@ CHECKS = {
  "C14": dict(engine="A", technique=A + "; oracle: exactly-once, after last command, reverse order, before caller continues, EXIT_CODE",
              text="Programs with up to 3 defers (commands and task calls) at all positions, failing command at each position, nested tasks with own defers, alias/wildcard invocation, same task called repeatedly with different vars/outcome, cancellation by a failing sibling; all bounded schedules.",
              note=NOTE_A),
+ "C04": dict(engine="B", technique="explicit-state BFS over edit/invocation histories on a real directory through the real CLI binary, with kill points at every command boundary, against a reference map fingerprint -> outcome of the last attempt",
+             text="All histories up to depth 3 (quick) / 5 (thorough) over {edit, touch, add, remove source; remove generated file; run; run failing at command k; run killed (kill -9 of Task) at command boundary k; prompt declined/accepted; --dry; --status; --list-all --json; --force (ok/failing); run of a task sharing the state file} x method {checksum,timestamp} x task shapes {plain, generates, prompt, colliding names, namespaced+label, deps, differing global method}; states deduplicated on (contents, mtime order, model). Oracle: a skipped run implies the last attempt at the present fingerprint succeeded and generates exist.",
+             note="Bounded depth; crashes are process kills at command boundaries (no torn writes / power loss); cancellation by a sibling failure is not covered by this engine; known findings (state recorded before the commands run; a:b / a-b share a state file) are listed in known_findings.jsonl."),
+ "C05": dict(engine="B", technique="explicit-state BFS over file-operation/run histories through the real CLI binary against a reference matcher + fingerprint model",
+             text="All histories up to depth 3/5 over {edit matched/nested/excluded/deeply-excluded/unmatched file, touch, add, remove, rename, move to sub-directory, add excluded, remove generated, toggle status flag, edit the seed a dependency regenerates a source from, run, --force} x method x shapes {plain, generates, status, exclude-before-include, dep-regenerates-source}; oracle in both directions (idempotence and sensitivity).",
+             note="Bounded depth and file alphabet; mtimes are real (tick discipline), state key uses the order type of mtimes."),
+ "C09": dict(engine="A", technique="controlled-scheduler model checking of Executor.Setup with every Go-map iteration order (rewritten map ranges in taskfile, taskfile/ast and dominikbraun/graph) and every reader/merge goroutine schedule as explored choices",
+             text="For 8 include configurations (siblings with overlapping vars/tasks, diamond, diamond with internal on one side, same file twice, nested siblings, flatten+aliases, optional include broken inside) every load with <=1 (quick) / <=2 (thorough) deviations from the canonical map order / default schedule computes the same canonical dump (task order, aliases, attributes, commands, global vars).",
+             note="Any map order is allowed by the language, so invariance is demanded under all of them; deviations bounded; signature = minimal responsible deviation set."),
+ "C11": dict(engine="A+B", technique="differential over call sequences within one Executor (every target after every sequence of <=2 other tasks vs alone) + controlled-scheduler model checking of X || T",
+             text="Programs with same-text dynamic variables in different dirs/envs, the same task called with different vars (env, dynamic var, literal, sub-call, templated defer), global dynamic var per task, matrix refs; T's observable commands must equal the T-alone baseline, sequentially and under all bounded schedules when run concurrently.",
+             note=NOTE_A),
+ "C12": dict(engine="B", technique="explicit-state BFS over histories; every read-only invocation is checked for a byte- and mtime-identical tree and for not running commands",
+             text="For every state reachable by C04's histories (depth 3/5) and every read-only invocation {--dry, --status, --list, --list-all, --list-all --json, --json --no-status, --summary, --dry --force, --summary/--dry with an uncompilable second task} x shapes (incl. dir: that does not exist yet): snapshot (names, contents, mtimes, incl. .task) identical before and after, no command executed. Identical state => identical continuations (deterministic), so the continuation clause follows.",
+             note="Bounded depth; snapshot compares every file of the project directory."),
+ "C17": dict(engine="A", technique="controlled-scheduler model checking of the real output.Group / output.Prefixed wrappers: all chunkings (environment choices) x all interleavings of the underlying writes (unbounded, state-key pruning)",
+             text="Direct harness: 2-3 threads each write every chunking (<=3 writes) of {'', 'x\\n', 'x', 'x\\ny', 'x\\ny\\n', '\\n'} through a wrapper and close; all begin/end/error_only settings; ALL interleavings; oracle: the stream is a sequence of whole blocks / whole prefixed lines, bytes conserved. Plus the same through the Executor with parallel deps (bound 2/3).",
+             note="Underlying writer records each Write atomically (as os.File does); colours off."),
+ "C18": dict(engine="A", technique="controlled-scheduler exploration with ThreadSanitizer: harness built with -race, scheduler hand-offs hidden from the detector (RaceDisable + norace), shims re-create exactly the happens-before edges of the real primitives; scheduling points also after releases",
+             text="23 scenario bodies (the concurrency scenarios of C01/C02/C06/C07/C14/C17, templated defers in parallel, matrix-ref rows in parallel deps, same-text dynamic vars, failing run-once with two callers, --list-all --json, reader on sibling includes): every schedule within the bound is also a vector-clock race check of its happens-before class; a report counts when both stacks run through Task's own code.",
+             note="Bound 0-2 (quick) / +1 (thorough); code paths no scenario reaches are not covered; races are reported per explored schedule (incidental synchronisation can order accesses in a given schedule)."),
 }
 ALL = ["C%02d" % i for i in range(1, 21)]
 REASON_PENDING = "check not built yet in this round (planned in DESIGN.md section 5); not claimed"
@@ -57,6 +78,7 @@ def main():
         },
         "engines": [
             {"name": "A", "path": "/verif/shim/vsched + /verif/harness/vlab", "serves_properties": ["C01","C02","C03","C06","C07","C09","C11","C13","C14","C17","C18"], "kind_free_text": "cooperative scheduler + stateless DFS explorer on the real implementation"},
+            {"name": "B", "path": "/verif/harness/props/hist.go", "serves_properties": ["C04","C05","C12"], "kind_free_text": "explicit-state BFS over histories of file operations and real CLI invocations"},
         ],
         "checks": checks,
         "not_applicable": [{"property_id": p, "reason": REASON_PENDING} for p in ALL if p not in CHECKS],
